@@ -51,7 +51,17 @@ func mutate(rt *rapid.T, ctx *Ctx, t *model.Type, b []byte, labels map[string]in
 	b = append([]byte{}, b...)
 	n := rapid.IntRange(1, 3).Draw(rt, "nmut")
 	for i := 0; i < n; i++ {
-		switch rapid.IntRange(0, 8).Draw(rt, "mutator") {
+		switch rapid.IntRange(0, 9).Draw(rt, "mutator") {
+		case 9:
+			// the same record many times over (many chunks of one field)
+			if recs, ok := model.SplitRecords(b); ok && len(recs) > 0 {
+				labels["mut:repeat-record"]++
+				r := recs[rapid.IntRange(0, len(recs)-1).Draw(rt, "rec")]
+				k := rapid.IntRange(8, 64).Draw(rt, "times")
+				for j := 0; j < k && len(b)+len(r.Raw) < 60000; j++ {
+					b = append(b, r.Raw...)
+				}
+			}
 		case 0:
 			labels["mut:truncate"]++
 			b = b[:rapid.IntRange(0, len(b)).Draw(rt, "trunc")]
@@ -137,6 +147,9 @@ func runC06(ctx *Ctx) {
 		t := t
 		ctx.CheckRapid(string(t.Name), n, func(rt *rapid.T) *Case {
 			cfg := ctx.streamCfg(true, false)
+			if rapid.IntRange(0, 7).Draw(rt, "listburst") == 0 {
+				cfg.ListBurst = 64
+			}
 			b := cfg.GenStream(rt, t.Desc, 0)
 			labels := map[string]int{}
 			b = mutate(rt, ctx, t, b, labels)
